@@ -1,7 +1,8 @@
 //! parsedump: for every input text prints the rowan tree and the syntax errors of syntax::parse.
 //! node = ["N", kind, lo, hi, [children]], token = ["T", kind, lo, hi];
-//! output object: {"tree": node, "errors": [[lo, hi, msg], ...], "text_ok": tree.text()==input}
+//! output object: {"tree": node, "errors": [[lo, hi, msg], ...], "text_ok": tree.text()==input, "parse_us": wall time of syntax::parse}
 //! `--timeout-ms N` (default 20000): per-case watchdog, see main.
+//! with `--stats`: {"nodes": n, "nleaves": n, "nerrors": n, "parse_us": t} only.
 //! with `--flat`: {"leaves": [[kind, lo, hi], ...], "nodes": n, "errors": ..., "text_ok": ..}
 use serde_json::{json, Value};
 use syntax::{SyntaxElement, SyntaxNode};
@@ -25,6 +26,8 @@ fn main() {
     vharness::quiet_panics();
     let args: Vec<String> = std::env::args().collect();
     let flat = args.iter().any(|a| a == "--flat");
+    // --stats: only counts and the parse time (for large scaling inputs)
+    let stats = args.iter().any(|a| a == "--stats");
     // per-case watchdog: a parse that does not return within the limit is reported as {"timeout": ms} and the
     // process stops there (the runaway thread cannot be cancelled); the caller resumes with the remaining cases.
     let timeout_ms: u64 = args
@@ -42,8 +45,21 @@ fn main() {
             .stack_size(8 * 1024 * 1024)
             .spawn(move || {
                 let r = vharness::guarded(move || {
+                    let started = std::time::Instant::now();
                     let p = syntax::parse(&t2);
+                    let parse_us = started.elapsed().as_micros() as u64;
                     let root = p.syntax_node();
+                    if stats {
+                        let mut nodes = 0u64;
+                        let mut leaves = 0u64;
+                        for e in root.descendants_with_tokens() {
+                            match e {
+                                SyntaxElement::Node(_) => nodes += 1,
+                                SyntaxElement::Token(_) => leaves += 1,
+                            }
+                        }
+                        return json!({"nodes": nodes, "nleaves": leaves, "nerrors": p.errors().len(), "parse_us": parse_us});
+                    }
                     let errors: Vec<Value> = p
                         .errors()
                         .iter()
@@ -62,9 +78,9 @@ fn main() {
                                 }
                             }
                         }
-                        json!({"leaves": leaves, "nodes": nodes, "errors": errors, "text_ok": text_ok})
+                        json!({"leaves": leaves, "nodes": nodes, "errors": errors, "text_ok": text_ok, "parse_us": parse_us})
                     } else {
-                        json!({"tree": node(&root), "errors": errors, "text_ok": text_ok})
+                        json!({"tree": node(&root), "errors": errors, "text_ok": text_ok, "parse_us": parse_us})
                     }
                 });
                 let _ = tx.send(r);
